@@ -392,6 +392,14 @@ class CoreGen:
             self.loop_depth -= 1
             self.readonly.discard(i)
             self.nonneg.discard(i)
+            # every part of the header is optional: now and then the test or the step is written in the body instead
+            hv = rng.random()
+            if hv < 0.07:
+                body = Block([If(Bin("==", cond, IntLit(0), INT), Block([Break()]))] + list(body.stmts))
+                cond = None
+            elif hv < 0.12:
+                body = Block([ExprStmt(nxt)] + list(body.stmts))
+                nxt = None
             return For(Decl(INT, i, int_literal(rng, 0)), cond, nxt, body)
         c = self.fresh(scope)
         scope.vars[c] = INT
